@@ -84,7 +84,7 @@ def run(rep, tier, seed):
     rep.level = "fault_enumeration"
     rng = random.Random(seed * 1000003 + 16)
     quick = tier == "quick"
-    n = 5000 if quick else 120000
+    n = 10000 if quick else 120000
     mg = GM.ModelGen(rng, 3, 5, 10)
     items = []
     while len(items) < n:
